@@ -23,13 +23,18 @@ class Deadlock(Exception):
 
 
 class Sched:
-    def __init__(self, n, schedule, files, hot, opcode_fns=(), max_steps=200000):
+    def __init__(self, n, schedule, files, hot, opcode_fns=(), max_steps=200000, entry_fns=()):
         self.n = n
         self.schedule = schedule
         self.preempt = {int(k): v for k, v in schedule.get("preempt", {}).items()}
+        # label rules: [tid, function name, n, to]: when thread tid ENTERS function name (frame
+        # created, first line not yet run) for the n-th time, hand the turn to thread `to`
+        self.label_rules = [list(r) for r in schedule.get("label_preempt", [])]
+        self.entries = {}
         self.files = files
         self.hot = hot
         self.opcode_fns = set(opcode_fns)
+        self.entry_fns = set(entry_fns)
         self.cv = threading.Condition()
         self.turn = None
         self.alive = set(range(n))
@@ -76,6 +81,13 @@ class Sched:
                 if cand in self.alive and cand != tid:
                     nxt = cand
                     self.applied_preemptions += 1
+            if label and label[0] == "call":
+                key = (tid, label[1])
+                self.entries[key] = self.entries.get(key, 0) + 1
+                for r in self.label_rules:
+                    if r[0] == tid and r[1] == label[1] and r[2] == self.entries[key] and r[3] in self.alive and r[3] != tid:
+                        nxt = r[3]
+                        self.applied_preemptions += 1
             if must_switch and nxt == tid:
                 # round-robin, so that the thread holding the lock eventually runs
                 other = None
@@ -119,6 +131,9 @@ class Sched:
             if co.co_filename in s.files and (s.hot is None or co.co_name in s.hot):
                 if co.co_name in s.opcode_fns:
                     frame.f_trace_opcodes = True
+                if co.co_name in s.entry_fns:
+                    # the frame exists, its first line has not run yet
+                    s.point(tid, ("call", co.co_name))
                 return local
             return None
 
@@ -187,9 +202,9 @@ def cooperative_locks(modules, registry):
     return n
 
 
-def run_schedule(nthreads, bodies, schedule, files, hot, opcode_fns=(), registry=None, timeout=20, labels=False):
+def run_schedule(nthreads, bodies, schedule, files, hot, opcode_fns=(), registry=None, timeout=20, labels=False, entry_fns=()):
     """bodies: list of callables(tid) -> result.  Returns dict(results, errors, steps, digest, ...)."""
-    s = Sched(nthreads, schedule, files, hot, opcode_fns)
+    s = Sched(nthreads, schedule, files, hot, opcode_fns, entry_fns=entry_fns)
     if labels:
         s.labels = []
     results = [None] * nthreads
